@@ -376,7 +376,9 @@ def run(spec, mon):
                                 for ri in range(len(ex["rows"])):
                                     names_all.append(u"%s -- @%d.%d %s" % (it["name"], ei + 1, ri + 1, ex.get("name", "")))
                 written(doc.abstract)
-                parsed_names = [s.name for s in feats[0].walk_scenarios()]
+                # (read off a second parse: walking the scenarios of the model that is going to run would build the outline rows before
+                #  the run -- a plain `behave FILE -n PATTERN` builds them when it gets there)
+                parsed_names = [s.name for s in parse_features([FileLocation(doc.fname)])[0].walk_scenarios()]
                 if [n.strip() for n in parsed_names] != [n.strip() for n in names_all]:
                     # (outline names with placeholders etc.: fall back to what the model says -- C04 / C06 own those texts)
                     if any(("<" in n) for n in names_all) or len(parsed_names) != len(names_all):
